@@ -1,5 +1,5 @@
 (** C12 — streamed HTTP responses (SSE, multipart/mixed) are well-framed under any timing. *)
-From GV Require Import Base.Prelude Model.Sse Model.Multipart Proofs.SseProofs Proofs.MultipartProofs Corr.Corr_C12.
+From GV Require Import Base.Prelude Model.Sse Model.Multipart Model.SseLock Proofs.SseProofs Proofs.MultipartProofs Proofs.SseLockProofs Corr.Corr_C12.
 Open Scope list_scope.
 
 (** SSE.  For every sequence of payloads (their JSON has no raw CR/LF, as encoding/json guarantees), every way
@@ -49,3 +49,25 @@ Example C12_nonvacuous :
   /\ hn_pattern [p 0%nat true; p 1%nat true; p 2%nat false] = true
   /\ sse_monitor [bytes_of "{}"; bytes_of "[1]"] (sse_bytes [APayload (bytes_of "{}"); APing; APayload (bytes_of "[1]")] 3) = true.
 Proof. vm_compute. repeat split; reflexivity. Qed.
+
+(** Why the byte-level theorem may treat each write as atomic and place no ping after the completion: the lock
+    discipline of the transport (handler and keep-alive goroutine, one mutex guarding the writer and the done flag),
+    over EVERY interleaving and any number of events - every write happens while its writer holds the lock, and
+    nothing is written after the completion. *)
+Theorem C12_sse_writes_exclusive_nothing_after_completion : forall n tr s,
+  skrun as_written (skinit n) tr = Some s -> forallb snd (sk_out s) = true /\ nothing_after_complete (sk_out s) = true.
+Proof. exact sse_lock_safety_lemma. Qed.
+Print Assumptions C12_sse_writes_exclusive_nothing_after_completion.
+
+(** The two slips that break it, by witness: [done] read before the lock is taken (a ping after the completion), and
+    an event written without the lock while the keep-alive holds it. *)
+Theorem C12_sse_check_outside_lock_refuted :
+  let v := {| v_done_unlocks := true; v_check_under_lock := false; v_events_locked := true |} in
+  option_map (fun s => map fst (sk_out s)) (skrun v (skinit 0) [LTick; LHandler; LHandler; LKeepAlive; LKeepAlive]) = Some [IComplete; IPing].
+Proof. exact check_outside_lock_witness. Qed.
+Print Assumptions C12_sse_check_outside_lock_refuted.
+Theorem C12_sse_unlocked_event_refuted :
+  let v := {| v_done_unlocks := true; v_check_under_lock := true; v_events_locked := false |} in
+  option_map (fun s => (sk_holder s, sk_out s)) (skrun v (skinit 1) [LTick; LKeepAlive; LHandler]) = Some (Some TK, [(IEv, false)]).
+Proof. exact unlocked_event_witness. Qed.
+Print Assumptions C12_sse_unlocked_event_refuted.
